@@ -290,6 +290,30 @@ def case(ctx, i, rng):
         elif not o2.accepted:
             ctx.violation("save", f"fault-free-save-failed/{o2.exc_type}/after-a-failed-save", dict(base_w, outcome=o2.brief()))
         shutil.rmtree(out2, ignore_errors=True)
+    # ---- saving back into the directory the configuration was loaded from (overwrite requested), after the program changed
+    # values that live in sub-files: the saved path reproduces the configuration as it is now ----
+    edits = [(k, v) for k, v in (("pt.x", 77), ("inner.i1", 55), ("m.init_args.a", 66)) if k.split(".")[0] + "_file" in feats and cfg0.get(k.split(".")[0]) is not None]
+    if edits and "dc_file" not in feats:
+        cfg = copy.deepcopy(cfg0)
+        for k, v in rng.sample(edits, rng.randrange(1, len(edits) + 1)):
+            cfg[k] = v
+        cfg["a"] = 4242
+        mf = rng.random() < 0.8
+        name = rng.choice(["main.yaml", "main_variant.yaml"])
+        o1, _ = do_save(p, cfg, os.path.join(src, name), mf, True)
+        ctx.count("mon.save_into_source_directory")
+        ctx.evaluation(("c18-inplace", tuple(sorted(feats)), mf, name))
+        w = dict(base_w, step="save into the source directory after editing sub-file values", multifile=mf, name=name, edited=short(cfg, 400))
+        if not o1.accepted:
+            ctx.violation("save", f"fault-free-save-failed/{o1.exc_type}/into-source-directory", dict(w, outcome=o1.brief()))
+        else:
+            ob = call(build().parse_path, os.path.join(src, name))
+            if not ob.accepted:
+                ctx.violation("save", f"saved-config-does-not-parse/{'multifile' if mf else 'single'}/into-source-directory", dict(w, reparse=ob.brief(), saved=_read(os.path.join(src, name))))
+            else:
+                d = same(strip_prov(cfg, ["cfg"]).as_dict(), strip_prov(ob.value, ["cfg"]).as_dict())
+                if d:
+                    ctx.violation("save", f"saved-config-differs/{'multifile' if mf else 'single'}/into-source-directory", dict(w, at=d[0], why=d[1], saved=_read(os.path.join(src, name))))
     if i < 2:
         ctx.sample(dict(base_w, faults=[(k, short(d, 60)) for k, d in faults]))
 
